@@ -11,6 +11,15 @@ BASE_NOTE = ('Trusted: Coq 8.16.1 kernel, vm_compute (no native_compute), no axi
              'virtual clock constant during one process() call. ')
 
 CLAIMED = {
+    'C01': dict(design='4 (C01)',
+        text='Theorems (unbounded payload length / message count, every accepted configuration): the reference segmentation of any payload is a well-formed stream (C01_segmentation_wellformed, induction over the Consecutive Frames); any sequence of well-formed streams is delivered in order, exactly once, without error (C01_messages); hence for peers whose prefix sizes agree the receiver fed with the reference segmentation of a message list delivers exactly that list (C01_transfer); recv() is FIFO and removes what it returns (C01_recv_fifo). With C02 (the sender emits the reference segmentation) and C09_mirror (identifiers/prefix accepted by the mirrored address) this is the lossless-transfer statement for schedules in which frames reach the receiver in order with deadlines kept. The joint theorem over every interleaving of the two process() loops is NOT proved: interleavings, flow-control round trips and process() granularity are covered by the two-peer correspondence campaigns (real layers vs two extracted model instances, same schedule).',
+        note='PARTIAL proof: composition of sender-side, wire and receiver-side theorems; the two-peer joint invariant (DESIGN.md appendix A) is not mechanised.'),
+    'C10': dict(design='4 (C10)',
+        text='Theorems: the transmit state machine never modifies reception state (C10_tx_preserves_rx) and data frames never modify transmission state (C10_rx_preserves_tx); a Flow Control frame only fills the one-slot mailbox and hands over to the transmit pass (C10_fc_only_mailbox); a pass answering with a Flow Control leaves the transmitter untouched (C10_fc_answer_pass); send()/recv() touch only their own side (C10_user_calls); in every reachable state (any interleaving of micro-steps) a non-idle transmitter or receiver has a running deadline or a frame about to leave: no wedge (C10_no_wedge). Delivery per direction then follows from C01. Tied to /repo by duplex campaigns over interleavings of {A.process, A.process(tx only), B.process, B.process(tx only), deliver A->B, deliver B->A, tick} compared with two extracted model instances.',
+        note='PARTIAL proof: non-interference inside one layer and no-wedge are proved; the two-peer joint delivery statement over all interleavings is explored (exhaustively for small scopes in thorough tier, randomly for large), not proved.'),
+    'C11': dict(design='4 (C11)',
+        text='One theorem per kind of hit frame: duplicated Single Frame delivered twice without error (C11_dup_single); lost First Frame -> every following Consecutive Frame reported and ignored, nothing delivered (C11_lost_first_frame, induction over the stream); lost or duplicated Consecutive Frame -> sequence gap -> WrongSequenceNumberError, partial message dropped, never delivered (C11_sequence_gap); lost tail / lost Flow Control -> a reception always has a deadline and its expiry abandons it with ConsecutiveFrameTimeoutError (C11_lost_tail_reported), the sender reports FlowControlTimeoutError and fails the request (C11_lost_fc_reported); duplicated ContinueToSend harmless (C11_dup_cts); after the fault the next message is delivered intact from whatever state was left (C11_after_fault). Tied to /repo by exhaustive fault-position campaigns (every frame index of either direction x {drop, duplicate}) on two real peers vs the extracted model.',
+        note='PARTIAL proof: per-fault-kind theorems; "at most the one hit message is missing" over a whole exchange and the duplicated First Frame case are campaign oracles.'),
     'C02': dict(design='4 (C02)',
         text='Theorems (all configurations, all payloads): every frame of the reference segmentation Spec.Segment.seg is well formed (C02_wellformed); a request that fits produces exactly the Single Frame of the Spec, padded/DLC-rounded as documented (C02_single); otherwise the First Frame of the Spec incl. the 32-bit escape form (C02_first_frame); every later data frame is the next Consecutive Frame of the Spec with the running sequence number (C02_consecutive_frame); refused sends queue nothing (C02_refuse). Tied to /repo by campaigns comparing every emitted frame with the extracted Spec segmentation (cooperative peer, standby/rate-limited, boundary lengths, >4095 escape, 2^32 refusal).',
         note='The per-frame theorems are one-step facts about start_request / tx_cf composed over a run by the campaign, not by an inductive whole-run theorem; the equality "concatenation of all frames = seg c p" for a complete run is checked, not proved.'),
@@ -58,9 +67,6 @@ CLAIMED = {
         note='Same kernel abstraction as C19.'),
 }
 REASONS = {
-    'C01': 'two-peer campaign exists (harness/props/C01.py) but the joint theorem file Props/C01.v is not yet committed; see DESIGN.md',
-    'C10': 'two-peer duplex campaign exists (harness/props/C10.py) but Props/C10.v is not yet committed; see DESIGN.md',
-    'C11': 'fault-injection campaign exists (harness/props/C11.py) but Props/C11.v is not yet committed; see DESIGN.md',
     'C13': 'threaded model and campaign under construction',
     'C14': 'lifecycle model and campaign under construction',
 }
